@@ -245,6 +245,18 @@ class Scaling(Interp):
                 pass
         return b
 
+    def _comprehension(self, node, env, elt_nodes):
+        # `a, b = (f(c) for c in (x, y))`: a comprehension over a short literal tuple is written out element by element
+        gens = node.generators
+        if len(gens) == 1 and not gens[0].ifs and isinstance(gens[0].iter, (ast.Tuple, ast.List)) and len(elt_nodes) == 1 and 1 <= len(gens[0].iter.elts) <= 4 and not any(isinstance(e_, ast.Starred) for e_ in gens[0].iter.elts):
+            vals = []
+            for el in gens[0].iter.elts:
+                e = dict(env)
+                self.bind_target(gens[0].target, self.eval(el, e), e, None)
+                vals.append(self.eval(elt_nodes[0], e))
+            return SV("tuple", items=tuple(vals))
+        return super()._comprehension(node, env, elt_nodes)
+
     def collection(self, vals, node, env):
         if isinstance(node, ast.Tuple):
             return SV("tuple", items=tuple(vals))
